@@ -64,6 +64,8 @@ impl<T: Qcow2IoOps> Qcow2Dev<T> {
         // no guest read or write may be in flight on it.  Those are not
         // tracked per cluster, so wait for all of them and keep new ones
         // out until the range is done.
+        #[cfg(qcow2_rs_verif)]
+        crate::verif::probe("discard:wait-io-lock");
         let _io = self.io_lock.write().await;
 
         log::trace!(
